@@ -66,7 +66,9 @@ RULES = [
      'T::from_xx_bytes(e) -> trusted wrapper with vstd::bytes spec'),
     ('R2', re.compile(r'\bf64::from_(le|be)_bytes\('), r'v_f64_from_\1_bytes(',
      'f64::from_xx_bytes(e) -> trusted wrapper'),
-    ('R5', re.compile(r'\bdebug_assert!\('), r'assert(', 'debug_assert! -> proof obligation'),
+    ('R5', re.compile(r'\bdebug_assert!\('), r'assert(/*R5*/ ', 'debug_assert! -> proof obligation (marked: its failure alone is not reported as a violation, see DESIGN 2.3)'),
+    ('R5', re.compile(r'\bdebug_assert_eq!\(([^,;()]*(?:\([^()]*\)[^,;()]*)*),\s*([^,;()]*(?:\([^()]*\)[^,;()]*)*)\);'), r'assert(/*R5*/ (\1) == (\2));', 'debug_assert_eq!(a, b) -> proof obligation a == b'),
+    ('R5', re.compile(r'\bdebug_assert_ne!\(([^,;()]*(?:\([^()]*\)[^,;()]*)*),\s*([^,;()]*(?:\([^()]*\)[^,;()]*)*)\);'), r'assert(/*R5*/ (\1) != (\2));', 'debug_assert_ne!(a, b) -> proof obligation a != b'),
 ]
 
 
